@@ -153,6 +153,29 @@ def digest(value) -> str:
     ).hexdigest()
 
 
+def stable_digest(value) -> str:
+    """A digest for the determinism log that does not depend on the ORDER of synonyms (nor on the order
+    of the non-canonical expansions): a library may keep the caller's order, and when the caller passed a
+    set that order follows the interpreter's hash seed - which must not look like a harness that is not
+    deterministic."""
+
+    def norm(v, key=None):
+        if isinstance(v, dict):
+            return {k: norm(x, k) for k, x in v.items()}
+        if isinstance(v, list):
+            out = [norm(x) for x in v]
+            if key in ("prefix_synonyms", "uri_prefix_synonyms"):
+                return sorted(out, key=lambda x: json.dumps(x, sort_keys=True))
+            if key in ("expand_all", "expand_pair_all") or (len(out) == 2 and out[0] == "ok" and isinstance(out[1], list)
+                                                             and all(isinstance(x, str) for x in out[1])):
+                if len(out) == 2 and out[0] == "ok" and isinstance(out[1], list):
+                    return ["ok", out[1][:1] + sorted(out[1][1:])]
+            return out
+        return v
+
+    return digest(norm(value))
+
+
 def diff(a, b, path="", limit=6):
     """First few paths at which two canonical values differ."""
     out = []
